@@ -28,7 +28,7 @@ def build(case: Dict[str, Any], seed: int):
   qa = np.array([1.0, 0, 0, 0]) if c["t1"] == "plane" else family._unit(r, 4)
   qb = family._unit(r, 4)
   direction = np.array([0, 0, 1.0]) if c["t1"] == "plane" else family._unit(r)
-  target = PEN[c["pose"]]
+  target = PEN.get(c["pose"], -1.0)
   pair = ""
   if c["explicit"]:
     p = c["pair"]
@@ -49,6 +49,10 @@ def build(case: Dict[str, Any], seed: int):
     mujoco.mj_kinematics(mm, dd)
     return mujoco.mj_geomDistance(mm, dd, 0, 1, 1.0, None), mm
 
+  if c["pose"] == "engulfed":
+    # no bisection: the free body's origin sits 5..25 mm from the static geom's centre, well inside both geoms' extents (sizes are >= 60 mm)
+    s, mm = signed(float(r.uniform(0.005, 0.025)))
+    return mm, s, s
   lo, hi = 0.0, 0.8
   for _ in range(40):
     mid = 0.5 * (lo + hi)
